@@ -97,6 +97,7 @@ impl Director for D {
             progress: vec![],
             results,
             install_result: "r".into(),
+            await_last_ack: true,
         }
     }
     fn reboot_needed(&mut self, w: &mut Inner, _p: &str) -> bool {
@@ -260,12 +261,23 @@ fn oracle(log: &[Obs]) -> V {
     let mut reboot_needed_yes = false;
     let mut last_reboot_allowed: Option<bool> = None;
     let mut ondemand_seen = false; // options of the check or a request were on-demand
+    let mut ondemand_accepted = false; // the check runs on demand, or an on-demand request was answered during it
+    let mut pending_ondemand: Vec<(usize, usize)> = vec![];
     let mut in_wait = false;
     for (i, o) in log.iter().enumerate() {
         match o {
-            Obs::Ctl(CtlObs::Sent { opts, .. }) => {
+            Obs::Ctl(CtlObs::Sent { opts, client, seq }) => {
                 if *opts == Src::OnDemand {
                     ondemand_seen = true;
+                    pending_ondemand.push((*client, *seq));
+                }
+            }
+            Obs::Ctl(CtlObs::Reply { client, seq, .. }) => {
+                if let Some(p) = pending_ondemand.iter().position(|r| r == &(*client, *seq)) {
+                    pending_ondemand.remove(p);
+                    if allowed.is_some() {
+                        ondemand_accepted = true;
+                    }
                 }
             }
             Obs::CheckAllowed { ans, opts, .. } => {
@@ -276,12 +288,14 @@ fn oracle(log: &[Obs]) -> V {
                 reboot_needed_yes = false;
                 last_reboot_allowed = None;
                 ondemand_seen = *opts == Src::OnDemand;
+                ondemand_accepted = *opts == Src::OnDemand && ans.positive().is_some();
                 in_wait = false;
             }
             Obs::Ev(Ev::State(State::WaitingForReboot)) => in_wait = true,
             Obs::Ev(Ev::State(State::Idle)) => {
                 allowed = None;
                 in_wait = false;
+                ondemand_accepted = false;
             }
             Obs::Req(r) => {
                 let p = match allowed {
@@ -349,6 +363,9 @@ fn oracle(log: &[Obs]) -> V {
                 }
                 if *opts == Src::OnDemand && !ondemand_seen {
                     return bad("reboot question asked as on-demand although neither the check nor a request was on-demand", format!("#{i}"));
+                }
+                if *opts != Src::OnDemand && ondemand_accepted {
+                    return bad("reboot question asked as scheduled although the check was started or joined by an on-demand request", format!("#{i}"));
                 }
                 last_reboot_allowed = Some(*ans);
             }
